@@ -1074,6 +1074,44 @@ def rule_R6(F, R):
             else:
                 R.ok("R6", "every successful return of the replica's sync has rebuilt the working set", where(body, i))
     R.floor("R6", "Replica methods that run the TaskDb sync", n, 1)
+    # the same after an undo: once TaskDb::commit_reversed_operations reports that it did undo something,
+    # every successful return has rebuilt the working set (a reversed Delete brings a pending task back
+    # through Create + Updates of old_task, not through a status Update)
+    from tc.util import switch_true_edges
+    m = 0
+    for p, b in sorted(F.bodies.items()):
+        im = b.get("impl") or {}
+        if b["kind"] != "AssocFn" or not im.get("self", "").startswith("replica::Replica<") or im.get("trait"):
+            continue
+        body = F.real_body(p)
+        if body is None:
+            continue
+        c = cfg_of(body)
+        undos = calls_matching(c, r"^taskdb::TaskDb::<S>::commit_reversed_operations$")
+        if not undos:
+            continue
+        m += 1
+        fl = flow_of(body)
+        rebuilds = {i for (i, t) in c.calls() if any((x in F.bodies) and (F.owner(x) == rebuild_owner or rebuild_owner in {F.owner(q) for q in F.reachable_from([x])}) for x in call_names(t))}
+        errs = error_blocks(c)
+        for (i, t) in undos:
+            # edges on which the undo reported `false` (nothing undone): leaving without a rebuild is right there
+            false_edges = set()
+            for s in sorted(c.reach):
+                tt = c.term(s)
+                if tt and tt["k"] == "switch":
+                    bo = bool_origin(fl, tt["o"])
+                    if bo and bo[0] == i:
+                        te = {(a_, b_) for (a_, b_, _lab) in switch_true_edges(c, s, bo[2])}
+                        for (j, lab) in c.succ[s]:
+                            if (s, j) not in te:
+                                false_edges.add((s, j))
+            r = c.reachable_after(i, removed=rebuilds | errs, removed_edges=false_edges)
+            if any(k in r for k in c.exits()):
+                R.violation("R6", p, "undo-without-rebuild", "after an undo that changed tasks the replica can return successfully without rebuilding the working set: a task brought back to pending by reversing its deletion is missing from the working set", where(body, i))
+            else:
+                R.ok("R6", "every successful undo has rebuilt the working set", where(body, i))
+    R.floor("R6", "Replica methods that run the TaskDb undo", m, 1)
 
 
 def rule_R7(F, R):
@@ -1102,6 +1140,10 @@ def rule_R7(F, R):
                     st = ref_base(fl, bo[1]["args"][0])
                     ssl = fl.slice_local(st) if st is not None else None
                     from_ws = bool(ssl and ssl.has_call(r"StorageTxn::get_working_set$"))
+                    cutters = sorted({x.split("::")[-1] for x in (ssl.call_names() if ssl else ()) if re.search(r"Iterator::(map_while|take_while|take|skip_while|step_by|filter|nth|last|find)$", x)})
+                    if from_ws and cutters:
+                        verdict = verdict or "the membership set is built from the stored working set through %s: it stops at the first gap / leaves entries out, so a task that holds a slot behind a gap is added again" % cutters[0]
+                        continue
                     ins = [k for (k, tt) in c.calls() if any(re.search(r"(HashSet::<T, S, A>|BTreeSet::<T, A>)::insert$", x) for x in call_names(tt)) and ref_base(fl, tt["args"][0]) == st and c.dominates(i, k)]
                     # the uuid inserted is the one added
                     same = [k for k in ins if fl.slice_operand(c.term(k)["args"][1]).roots & fl.slice_operand(t["args"][-1]).roots]
@@ -1164,7 +1206,7 @@ def rule_L2(F, R):
         if body is None:
             continue
         c = cfg_of(body)
-        calls = calls_matching(c, r"^taskdb::TaskDb::<S>::commit_operations")
+        calls = calls_matching(c, r"^taskdb::TaskDb::<S>::commit_operations(::<.*>)?$")
         if not calls:
             continue
         fl = flow_of(body)
